@@ -73,9 +73,6 @@ def mc(ctx: Ctx, rep: Report) -> None:
             raise MachineryError(f"{cfg}: TLC was expected to violate {inv} ({what}) but reported {r.violated}: "
                                  "the specification has lost its teeth")
         rep.add_tlc(r, f"expected counterexample: {what}")
-    if not ctx.quick:
-        res = _tlc(ctx, "Mca.tla", "Mca_mid.cfg")
-        rep.add_tlc(res, "theorems on the middle grid (3 values per symbol)")
 
 
 # ---- spec -> code ----------------------------------------------------------------------------------------
@@ -289,7 +286,7 @@ def classify(scn: dict, detail: dict) -> str | None:
 
 
 def points(ctx: Ctx, rep: Report) -> list[dict]:
-    cfg = "Mca_quick.cfg" if ctx.quick else "Mca_full.cfg"
+    cfg = "Mca_quick.cfg" if ctx.quick else "Mca_mid_emit.cfg"   # (Mca_full.cfg: 4 values per symbol, > 10 min on a loaded machine)
     res = _tlc(ctx, "Mca.tla", cfg)
     rep.add_tlc(res, f"theorems ScaledIsOrder, QuotExact, SteadyIsSteady, Summation on every point + coefficient tables ({cfg})")
     pts = [norm_point(p) for p in res.payloads]
@@ -355,7 +352,7 @@ def run(ctx: Ctx) -> int:
     pts = points(ctx, rep)
     binding_selftest(pts, rep)
     rnd = random.Random(ctx.seed)
-    cap = 336 if ctx.quick else 4000
+    cap = 336 if ctx.quick else 2400
     pick = pts if len(pts) <= cap else rnd.sample(pts, cap)
     results = pmap(_seq_point, [(p, ctx.seed) for p in pick], procs=WORKERS, chunk=4)
     worst_el = worst_rc = 0.0
@@ -370,7 +367,7 @@ def run(ctx: Ctx) -> int:
             rep.mismatch(b["scn"], b["detail"], classify(b["scn"], b["detail"]))
     # ---- parallel mode (own process pools: run outside the daemonic pmap workers) ----------------------------
     with_ss = [p for p in pick if p["hasss"]]
-    n_par = 20 if ctx.quick else 160
+    n_par = 20 if ctx.quick else 120
     by_net: dict = {}
     for p in with_ss:
         by_net.setdefault(p["net"], []).append(p)
@@ -413,7 +410,7 @@ def replay(ctx: Ctx, doc: dict) -> int:
     """Re-run the failing routine call of a replay file on the current tree."""
     scn = doc["scenario"]
     rep = Report(ctx)
-    res = _tlc(ctx, "Mca.tla", "Mca_quick.cfg" if ctx.quick else "Mca_full.cfg")
+    res = _tlc(ctx, "Mca.tla", "Mca_quick.cfg" if ctx.quick else "Mca_mid_emit.cfg")
     pts = [norm_point(p) for p in res.payloads]
     pt = next((p for p in pts if p["net"] == scn["net"] and p["env"] == scn["env"]), None)
     if pt is None:
